@@ -134,6 +134,11 @@ class Exec(HeapMixin, ExprMixin, CallMixin, StmtMixin):
                 t = self.reg.fields.get((c, name))
                 if t is not None:
                     return ty.parse(t)
+            # downcast by field name: a value declared with a base class (dict of Components) may be an instance
+            # of a subclass that declares the field (PositionComponent.x)
+            for (c, f), t in self.reg.fields.items():
+                if f == name and c in self.prog.classes and self.prog.is_subclass(c, cname):
+                    return ty.parse(t)
             return None
         t = self.reg.fields.get((cname, name))
         return ty.parse(t) if t is not None else None
@@ -260,6 +265,13 @@ class Exec(HeapMixin, ExprMixin, CallMixin, StmtMixin):
 
     def class_value(self, name):
         return VFunc('class', name=name, clsterm=z3.IntVal(self.cls_id(name)))
+
+    def with_state_force(self, v, st):
+        if isinstance(v, VRef):
+            return VRef(v.term, v.typ, st)
+        if isinstance(v, VTuple):
+            return VTuple([self.with_state_force(x, st) for x in v.items])
+        return v
 
     def spec_terms(self, pred, env, label=None):
         """Symbolic reading of predicate `pred` under bindings env -> [(label, z3 Bool)]."""
@@ -568,6 +580,8 @@ class Exec(HeapMixin, ExprMixin, CallMixin, StmtMixin):
         for key, term in list(self.S.h.items()):
             if key == 'alloc' or (isinstance(key, tuple) and key[0] == 'g'):
                 continue
+            if isinstance(key, tuple) and len(key) > 1 and key[1] == 'list[cls]':
+                continue        # *args tuples are immutable values; their list model never escapes
             b = base.h.get(key)
             if b is None:
                 b = self.ctx.base.get(key)
@@ -819,6 +833,14 @@ def _h_same(eng, a, b):
     return VBool(eng.values_equal(a, b, identity=True))
 
 
+def _h_now(eng, x):
+    return eng.with_state_force(x, None)
+
+
+def _h_was(eng, old, x):
+    return eng.with_state_force(x, old.st)
+
+
 def _h_typeof(eng, x):
     return eng.type_of_value(x)
 
@@ -833,5 +855,5 @@ def _h_is_none(eng, x):
 
 SPEC_HELPERS = dict(implies=_h_implies, iff=_h_iff, index_of=_h_index_of, order_of=_h_order_of, key_at=_h_key_at,
                     is_fresh=_h_is_fresh, same_elems=_h_same_elems, same_dict=_h_same_dict, typeof=_h_typeof, same=_h_same,
-                    same_obj=_h_same,
+                    same_obj=_h_same, now=_h_now, was=_h_was,
                     is_none=_h_is_none)
